@@ -30,6 +30,7 @@ from pyshacl.consts import (
 from pyshacl.errors import ConstraintLoadError
 from pyshacl.pytypes import GraphLike, SHACLExecutor
 from pyshacl.rdfutil import stringify_node
+from pyshacl.rdfutil.closure import transitive_objects
 from pyshacl.shape import Shape
 
 RDF_langString = RDF.langString
@@ -148,7 +149,7 @@ class ClassConstraintComponent(ConstraintComponent):
                         if ctype == class_rule:
                             found = True
                             break
-                        subclasses = target_graph.transitive_objects(ctype, RDFS_subClassOf)
+                        subclasses = transitive_objects(target_graph, ctype, RDFS_subClassOf)
                         if class_rule in iter(subclasses):
                             found = True
                             break
